@@ -8,6 +8,7 @@ import (
 	"sort"
 	"strconv"
 	"strings"
+	"testing/synctest"
 
 	"bsim/core"
 	"bsim/model"
@@ -591,6 +592,28 @@ func (r *recoverer) check(step int, what string, afterClose bool) {
 		if bad := CheckState(st2, m, ids2, keys2, false); len(bad) > 0 {
 			c.Violate("write-after-recovery-wrong", nil, step, "%s: %s", what, strings.Join(bad, "; "))
 			return
+		}
+		// a second crash, right after the recovered index acknowledged those batches (safe mode): the directory
+		// as it is now, with the recovered instance still running, must reopen to exactly this state
+		if r.n%3 == 0 {
+			img2 := img + "-again"
+			// the recovered instance runs on real goroutines: wait until every one of them is blocked, or the copy
+			// would not be an instantaneous state of the directory (a half-written root.bolt is not a crash image)
+			synctest.Wait()
+			if err := CopyDir(img, img2); err == nil {
+				c.Point("image@after-recovery-writes")
+				if ix3, err := model.RecoveryCfg().Open(img2); err != nil {
+					c.Violate("reopen-failed", map[string]string{"depth": "2"}, step, "%s: a second crash after recovery and three acknowledged batches: bleve.Open failed: %v", what, err)
+				} else {
+					if st4, err := ReadState(ix3, ids2, keys2); err != nil {
+						c.Violate("reopen-unreadable", map[string]string{"depth": "2"}, step, "%s: second crash: %v", what, err)
+					} else if bad := CheckState(st4, m, ids2, keys2, false); len(bad) > 0 {
+						c.Violate("acked-batch-lost", map[string]string{"depth": "2"}, step, "%s: a second crash after recovery lost acknowledged batches of the recovered index: %s", what, strings.Join(bad, "; "))
+					}
+					_ = ix3.Close()
+				}
+				_ = os.RemoveAll(img2)
+			}
 		}
 		closed = true
 		if err := ix.Close(); err != nil {
